@@ -40,13 +40,33 @@ pub fn generate(case_seed: u64, _idx: u64, tier: Tier) -> Case {
 fn history_queries() -> Vec<String> {
     let mut q: Vec<String> = battery(&[]).into_iter().filter(|q| q.starts_with("FIND")).collect();
     q.push("DESCRIBE SCHEMA ENVIRONMENT".into());
+    // matchers and filters on lifecycle state and on plain (non-indexed) fields
+    for extra in [
+        r#"FIND(?c.name) WHERE { ?c CONCEPT {state: "archived"} }"#,
+        r#"FIND(?c.name) WHERE { ?c CONCEPT {state: "tombstoned"} }"#,
+        r#"FIND(?a.id) WHERE { ?a ASSERTION {state: "retracted"} }"#,
+        r#"FIND(?a.id) WHERE { ?a ASSERTION {confidence: 0.9} }"#,
+        r#"FIND(?a.id) WHERE { ?a ASSERTION {stance: "support"} }"#,
+        r#"FIND(?c.name) WHERE { ?c CONCEPT {} FILTER(?c.name != "Alice") }"#,
+        r#"FIND(?c.name) WHERE { ?c CONCEPT {type: "Person"} } ORDER BY ?c.name LIMIT 2"#,
+    ] {
+        q.push(extra.into());
+    }
     q
 }
 
 async fn answers(session: &anda_cognitive_nexus::nexus::Session, suffix: &str) -> Vec<(String, String)> {
     let mut out = Vec::new();
     for q in history_queries() {
-        let cmd = if suffix.is_empty() { q.clone() } else { format!("{q} {suffix}") };
+        // the coordinate clause follows the WHERE block, before the solution modifiers
+        let cmd = if suffix.is_empty() {
+            q.clone()
+        } else {
+            match q.find(" ORDER BY").or_else(|| q.find(" LIMIT")) {
+                Some(i) => format!("{} {suffix}{}", &q[..i], &q[i..]),
+                None => format!("{q} {suffix}"),
+            }
+        };
         let o = exec(session, &cmd, false).await;
         let mut res = o.result.clone();
         if q.starts_with("DESCRIBE") {
@@ -205,6 +225,27 @@ pub fn execute(case: &Case, rep: &mut RunReport) -> Result<(), Violation> {
                 return Err(violation!("c18.as-of-time", "{suffix} (strictly between the commits of sequences {a} and {b}) differs from what was current after {a}: {d}"));
             }
             rep.probe("as_of_time_exact_checked", 1);
+        }
+    }
+    if matches!(case.clock, ClockMode::Tick(_) | ClockMode::Frozen) {
+        // the exact commit instant: under a non-decreasing clock "the newest
+        // transaction at or before t" is the LAST sequence whose commit time is t
+        // (several commits may share a millisecond), and the state there is the
+        // record of the newest recorded coordinate at or below it
+        for (s, t) in commit_ms.iter() {
+            let last_same = commit_ms.iter().filter(|(_, t2)| *t2 == t).map(|(s2, _)| *s2).max().unwrap_or(*s);
+            let Some((coord, want)) = recorded.range(..=last_same).next_back() else { continue };
+            let suffix = format!("AS OF TIME \"{t}\"");
+            let got = block(answers(&session, &suffix));
+            if let Some(d) = first_diff(want, &got) {
+                if !first_diff_ignoring_snapshot(want, &got) {
+                    return Err(violation!(
+                        "c18.as-of-time.exact-instant",
+                        "{suffix} is the commit instant of sequence {s} (newest transaction at that instant: {last_same}); the answer differs from what was current at coordinate {coord}: {d}"
+                    ));
+                }
+            }
+            rep.probe("as_of_time_commit_instant_checked", 1);
         }
     }
     if !strictly_increasing {
